@@ -161,6 +161,16 @@ func loadKnown() []known {
 
 var keySan = regexp.MustCompile(`[^A-Za-z0-9._-]+`)
 
+// knownFinding returns the description of a listed known finding with exactly this key ("" if none).
+func knownFinding(id, key string) string {
+	for _, k := range loadKnown() {
+		if k.Property == id && k.Status == "known" && k.Key == key {
+			return k.What
+		}
+	}
+	return ""
+}
+
 func runWorkers(bin string, c *cfg, tier string, n int, budget time.Duration, seed int64, scratch string, extra []string, extraEnv []string) ([]*hl.Summary, []string, error) {
 	sums := make([]*hl.Summary, n)
 	stderrs := make([]string, n)
@@ -222,6 +232,35 @@ func runWorkers(bin string, c *cfg, tier string, n int, budget time.Duration, se
 		}
 	}
 	return sums, stderrs, nil
+}
+
+var fatalRe = regexp.MustCompile(`(?m)^(fatal error: [^\n]+|runtime: goroutine stack exceeds[^\n]*)`)
+var libFrameRe = regexp.MustCompile(`github\.com/ossrs/go-oryx-lib/((?:[a-z0-9]+/)*[a-z0-9]+)\.((?:\(\*?[A-Za-z0-9_]+\)\.)?[A-Za-z0-9_.]+)\(`)
+
+// fatalInLibrary recognises a Go runtime fatal error in a worker's output whose stack runs through the library (not
+// through the injected verifshim packages) and turns it into a violation key fatal/<error>/<innermost library function>.
+func fatalInLibrary(out string) (key, what string) {
+	m := fatalRe.FindString(out)
+	if m == "" {
+		return "", ""
+	}
+	i := strings.Index(out, m)
+	rest := out[i:]
+	for _, f := range libFrameRe.FindAllStringSubmatch(rest, -1) {
+		if strings.HasPrefix(f[1], "verifshim") {
+			continue
+		}
+		msg := strings.TrimPrefix(m, "fatal error: ")
+		if strings.HasPrefix(m, "runtime: goroutine stack exceeds") {
+			msg = "stack overflow"
+		}
+		key = "fatal/" + strings.ReplaceAll(msg, " ", "-") + "/" + f[1] + "." + f[2]
+		if len(rest) > 6000 {
+			rest = rest[:6000]
+		}
+		return key, "a worker process was killed by the Go runtime inside the library: " + m + " in " + f[1] + "." + f[2] + "\n" + rest
+	}
+	return "", ""
 }
 
 func tail(s string, n int) string {
@@ -286,6 +325,19 @@ func runCheck(id, tier string, workersOverride int, keep bool) int {
 	}
 	sums, stderrs, err := runWorkers(bin, c, tier, n, budget, seed, scratch, nil, []string{"GOMAXPROCS=" + gomaxprocs(n)})
 	if err != nil {
+		// a worker killed by the Go runtime (stack overflow, concurrent map access, out of memory ...) with the library on
+		// the stack is a verdict about the library, not about the engine: the decoder/encoder under test crashed the process
+		if key, what := fatalInLibrary(err.Error()); key != "" {
+			os.MkdirAll(filepath.Join(verifRoot, "replays", id), 0755)
+			path := filepath.Join(verifRoot, "replays", id, keySan.ReplaceAllString(key, "_")+".txt")
+			os.WriteFile(path, []byte(what), 0644)
+			if kf := knownFinding(id, key); kf != "" {
+				fmt.Printf("KNOWN-FINDING: property=%s key=%s %s\n", id, key, kf)
+				return exit(0)
+			}
+			fmt.Printf("VIOLATION property=%s replay=%s\n  key=%s\n  %s\n", id, path, key, strings.SplitN(what, "\n", 2)[0])
+			return exit(1)
+		}
 		fmt.Fprintf(os.Stderr, "ENGINE-ERROR property=%s %v\n", id, err)
 		return exit(2)
 	}
